@@ -52,6 +52,7 @@ impl Expect {
 #[derive(Clone, Debug, PartialEq)]
 pub enum Tam {
     SetCert(usize),     // leaf := certificate of man-in-the-middle identity k
+    AppendCert(usize),  // chain := [original leaf, certificate of identity k]
     Resign(usize),      // ServerKeyExchange signature := ECDSA by identity k over client_random ‖ server_random (as delivered) ‖ params
     FlipRandom,
     FlipSid,
@@ -67,6 +68,7 @@ pub enum Tam {
 #[derive(Clone, Debug, PartialEq)]
 pub enum Forge {
     PlainFinished(u16),       // epoch-0 Finished with made-up verify_data, message_seq given
+    PlainFinishedLen(u16, usize), // the same with a verify_data of the given length (0 = empty body)
     PlainAppData,
     Hvr(u16),
     PlainCloseNotify,
@@ -195,6 +197,13 @@ impl Shared {
                     f.body = encode_certificate(&[self.ids[*k].certificate[0].clone()]);
                     xs.push(format!("XSetCert (mitm_cert {})", k));
                 }
+                Tam::AppendCert(k) if f.ty == HT_CERTIFICATE => {
+                    if let Some(mut chain) = parse_certificate(&f.body) {
+                        chain.push(self.ids[*k].certificate[0].clone());
+                        f.body = encode_certificate(&chain);
+                        xs.push(format!("XAppendCert (mitm_cert {})", k));
+                    }
+                }
                 Tam::Resign(k) if f.ty == HT_SERVER_KEY_EXCHANGE => {
                     if let Some(mut s) = parse_ske(&f.body) {
                         let m = ske_signed_content(&self.client_random, &self.server_random_delivered, &s);
@@ -270,6 +279,11 @@ impl Shared {
                 let r = hs_record(0, 70 + j as u64, &[whole(HT_FINISHED, *ms, vec![0xAB; 12])]);
                 (encode_record(&r), format!("DForge (mkRec 0 {} None (KHandshake [mkFrag 20 {} 12 0 12 (CWhole (BFinished (junk {})))]))", 70 + j, ms, j),
                  format!("forged plaintext Finished mseq {}", ms))
+            }
+            Forge::PlainFinishedLen(ms, n) => {
+                let r = hs_record(0, 70 + j as u64, &[whole(HT_FINISHED, *ms, vec![0xAB; *n])]);
+                (encode_record(&r), format!("DForge (mkRec 0 {} None (KHandshake [mkFrag 20 {} {} 0 {} (CWhole (BFinished (junk {})))]))", 70 + j, ms, n, n, j),
+                 format!("forged plaintext Finished mseq {} with a {}-byte verify_data", ms, n))
             }
             Forge::PlainAppData => {
                 let r = Rec { ct: CT_APPDATA, ver: (254, 253), epoch: 0, seq: 70 + j as u64, payload: b"evil".to_vec() };
